@@ -88,10 +88,21 @@ def canonical(node) -> str:
 # C01: does a Lark tree realise the AST (modulo regrouping inside runs of one operator)?
 
 
+def dump_tree(tree):
+    """complete structural dump of a lark tree incl. token type, text and .value (Token.__eq__ ignores .value)"""
+    if isinstance(tree, Tree):
+        return [str(tree.data), [dump_tree(child) for child in tree.children]]
+    if isinstance(tree, Token):
+        return ["token", tree.type, str(tree), tree.value if isinstance(tree.value, str) else repr(tree.value)]
+    return ["other", repr(tree)]
+
+
 def _atom_matches(tree, node) -> bool:
     if not isinstance(tree, Tree):
         return False
     kids = tree.children
+    if any(isinstance(kid, Token) and kid.value != str(kid) for kid in kids):
+        return False  # a token whose .value differs from its text
     if node[0] in ("rc", "hint", "fc"):
         return (
             tree.data == "condition"
@@ -227,12 +238,18 @@ _TOKEN = re.compile(
     r"(?P<ws>[ \t\f\r\n]+)|(?P<lb>\[)|(?P<rb>\])|(?P<lp>\()|(?P<rp>\))"
     r"|(?P<rep>[0-9]+\.\.[1-9][0-9]*)|(?P<pkg>[0-9]+P)|(?P<ub>UB[123])|(?P<int>[0-9]+)|(?P<op>[UOXuox∧∨⊻])"
 )
+# the same, but a repeatability may be written with any Unicode decimal digits (the grammar says \d there)
+_TOKEN_UNICODE_REP = re.compile(
+    r"(?P<ws>[ \t\f\r\n]+)|(?P<lb>\[)|(?P<rb>\])|(?P<lp>\()|(?P<rp>\))"
+    r"|(?P<rep>\d+\.\.[1-9]\d*)|(?P<pkg>[0-9]+P)|(?P<ub>UB[123])|(?P<int>[0-9]+)|(?P<op>[UOXuox∧∨⊻])"
+)
 
 
-def tokenize(text):
+def tokenize(text, unicode_rep=False):
+    pattern = _TOKEN_UNICODE_REP if unicode_rep else _TOKEN
     out, pos = [], 0
     while pos < len(text):
-        found = _TOKEN.match(text, pos)
+        found = pattern.match(text, pos)
         if not found:
             return None
         if found.lastgroup != "ws":
@@ -243,17 +260,25 @@ def tokenize(text):
 
 def unspecified_zone(text) -> bool:
     """
-    Characters about which the statement says nothing: non-ASCII decimal digits (Python's \\d admits them in a
-    repeatability) and the two non-ASCII letters that Python's re.IGNORECASE folds onto ASCII letters
-    (U+017F LONG S -> s, U+212A KELVIN SIGN -> k, also U+0130/U+0131 dotted/dotless i).
-    Only the 'no foreign exception' clause is checked for such strings.
+    AHB expressions only: the two non-ASCII letters that Python's re.IGNORECASE folds onto the ASCII letters of the
+    modal marks (U+017F LONG S -> s, U+212A KELVIN SIGN -> k).  The statement says "in any letter case" and nothing
+    about them; only the 'no foreign exception' clause is checked for strings containing them.
     """
-    return any((c.isdigit() and not c.isascii()) or c in "\u017f\u212a\u0130\u0131" for c in text)
+    return any(c in "\u017f\u212a" for c in text)
 
 
-def accepts_condition(text) -> bool:
+def condition_zone(text) -> bool:
+    """
+    Condition expressions: keys and package keys are ASCII integers (the grammar's INT, "[INT]" in the documented
+    error message), but the repeatability terminal is written with \\d, which admits every Unicode decimal digit.
+    A string that is well-formed only if such digits are allowed inside a repeatability is the one unspecified zone.
+    """
+    return (not accepts_condition(text)) and accepts_condition(text, unicode_rep=True)
+
+
+def accepts_condition(text, unicode_rep=False) -> bool:
     """expr := term (op? term)* ; term := "(" expr ")" | "[" INT "]" | "[" INT"P" REP? "]" | "[" UBn "]" """
-    toks = tokenize(text)
+    toks = tokenize(text, unicode_rep)
     if toks is None:
         return False
     pos = [0]
@@ -307,7 +332,7 @@ def split_ahb_lenient(text, limit=64, any_space=False):
     Lenient reading of an AHB expression: all ways (up to `limit`) of cutting the text into
     (indicator, condition_text | None) parts.  Indicators are the six modal-mark spellings and X/O/U in any ASCII
     letter case; a condition text is any non-empty run of condition-expression characters following an indicator.
-    any_space=True additionally admits every Unicode whitespace character inside condition texts (the AHB parser on
+    any_space=True additionally admits every Unicode whitespace character and decimal digit inside condition texts (the AHB parser on
     its own only checks that a condition part *looks like* a condition expression; the resolver checks it properly).
     """
     results = []
@@ -328,7 +353,7 @@ def split_ahb_lenient(text, limit=64, any_space=False):
         for piece in candidates:
             end = pos + len(piece)
             stop = end
-            while stop < len(text) and (text[stop] in _COND_CHARS or (any_space and text[stop].isspace())):
+            while stop < len(text) and (text[stop] in _COND_CHARS or (any_space and (text[stop].isspace() or text[stop].isdecimal()))):
                 stop += 1
             # longest condition text first (the real terminal is greedy), then every shorter cut
             for cut in range(stop, end - 1, -1):
@@ -341,7 +366,7 @@ def split_ahb_lenient(text, limit=64, any_space=False):
     return results
 
 
-def accepts_ahb_lenient(text) -> bool:
+def accepts_ahb_lenient(text, unicode_rep=False) -> bool:
     """
     Superset of every AHB expression the statement allows: some cut into indicator parts exists in which every
     non-blank condition text is accepted by R_cond, a prefix operator with a condition stands alone, and a bare
@@ -359,7 +384,7 @@ def accepts_ahb_lenient(text) -> bool:
             if _PREFIX.fullmatch(indicator) and len(parts) > 1:
                 ok = False
                 break
-            if not accepts_condition(cond):
+            if not accepts_condition(cond, unicode_rep):
                 ok = False
                 break
         if ok:
